@@ -592,6 +592,17 @@ fn run_form(f: &Form, a: &[f64], b: &[f64], s: f64, rows: usize, alt: usize, ali
                     Red::MatNorm => xm.as_ref().unwrap().norm(),
                     Red::MatProd => xm.as_ref().unwrap().prod(),
                 };
+                // environment: a request on the same thread that is not a matrix (length not a multiple
+                // of the row count) comes first; whatever it does, its unwind is caught and the
+                // well-formed request that follows must not be affected by it
+                if matches!(red, Red::InfNorm) && rows >= 2 && alt % 3 == 0 {
+                    let mut junk = av.clone();
+                    junk.push(1234.5);
+                    while junk.len() % rows == 0 || junk.len() <= rows {
+                        junk.push(1234.5);
+                    }
+                    let _ = catch(|| inf_norm(&junk, rows));
+                }
                 let v = eval(&xv, &xm);
                 let after = bits(match &xm { Some(m) => m.data().data(), None => xv.data() });
                 let mut res = vec![v];
@@ -1257,6 +1268,9 @@ impl Prop for C04 {
                         if let Err(d) = check_reduction(*red, &a, &b, rows_here.max(1), got) {
                             verdict = Some(mk("reduction_off_definition", d));
                             break 'steps;
+                        }
+                        if matches!(red, Red::InfNorm) && rows_here.max(1) >= 2 && stp.alt % 3 == 0 {
+                            st.inc("reduce.inf_norm_after_rejected_request");
                         }
                         if let (Some((k, nv)), Some(g2)) = (poke_of(&a), o.res.get(1)) {
                             st.inc("reduce.again_after_in_place_change");
